@@ -8,7 +8,7 @@ from ..astutil import call_name, dotted, short, u
 from ..core import Report
 from ..ctx import sites
 from ..engines.typestate import signature
-from ..frontend import Repo
+from ..frontend import AnalysisError, Repo
 from ..model import model_of
 from . import typestate_common as TC
 from .common_own import rule_refcount_outputs
@@ -52,6 +52,7 @@ def check(repo: Repo, rep: Report) -> None:
         rel, d = key.split("::")
         f = repo.fn(rel, d)
         sig = signature(m, f)
+        TC.rule_fanout_loops(rep, "F1-terminal-fan-out", f)
         for sub, sl in sig.items():
             if sub != "source#0" or "on_error" not in sl:
                 continue   # the defining source only (group_join's right source has no completion slot by design)
@@ -65,6 +66,8 @@ def check(repo: Repo, rep: Report) -> None:
                        f"{f.qual}: the source's {kind} is not delivered as a {kind} to every open window and then to the subscriber "
                        f"(windows left open, ended with the wrong kind, or the subscriber told first)")
     rule_refcount_outputs(repo, rep)
+    rep.rule("T1-rollover", "window_with_time: close iff next_span <= next_shift, open iff next_shift <= next_span (both when equal), evaluated for the three orderings", floor=4)
+    rule_rollover(repo, rep)
     for (rel, name), (wop, wargs) in BUFFERS.items():
         f = repo.fn(rel, name)
         calls = [n for n in f.all_nodes() if isinstance(n, ast.Call) and call_name(n) == wop]
@@ -85,3 +88,107 @@ def check(repo: Repo, rep: Report) -> None:
         fm = [n for n in f.all_nodes() if isinstance(n, ast.Call) and call_name(n) == "flat_map"]
         rep.ob("F3-buffer-is-window", f, f"{name} = {wop}({', '.join(wargs)}) + flat_map(to_list)", ok and bool(coll) and bool(fm),
                f"{name} is not the contents of {wop} with the same arguments: buffers and windows would partition the source differently")
+
+
+# ---------------------------------------------------------------------------------------------------------------
+class _Unsupported(Exception):
+    pass
+
+
+def _ev(e: ast.AST, env: dict):
+    """Evaluate a boolean / comparison expression over the two boundary cells (values are touched only through
+    comparisons, so the three orderings <, ==, > of the pair are the whole input space)."""
+    if isinstance(e, ast.Constant):
+        return e.value
+    if isinstance(e, ast.Name):
+        if e.id in env:
+            return env[e.id]
+        raise _Unsupported(u(e))
+    if isinstance(e, ast.Subscript) and isinstance(e.value, ast.Name) and e.value.id in env and u(e.slice) == "0":
+        return env[e.value.id]
+    if isinstance(e, ast.UnaryOp) and isinstance(e.op, ast.Not):
+        return not _ev(e.operand, env)
+    if isinstance(e, ast.BoolOp):
+        vals = [_ev(v, env) for v in e.values]
+        return all(vals) if isinstance(e.op, ast.And) else any(vals)
+    if isinstance(e, ast.IfExp):
+        return _ev(e.body, env) if _ev(e.test, env) else _ev(e.orelse, env)
+    if isinstance(e, ast.Compare) and len(e.ops) == 1:
+        a, b = _ev(e.left, env), _ev(e.comparators[0], env)
+        op = e.ops[0]
+        return {ast.Eq: a == b, ast.NotEq: a != b, ast.Lt: a < b, ast.LtE: a <= b, ast.Gt: a > b, ast.GtE: a >= b}[type(op)]
+    raise _Unsupported(u(e))
+
+
+def _run(stmts, env: dict, flags: set) -> None:
+    for st in stmts:
+        if isinstance(st, ast.Assign) and len(st.targets) == 1 and isinstance(st.targets[0], ast.Name) and st.targets[0].id in flags:
+            env[st.targets[0].id] = _ev(st.value, env)
+        elif isinstance(st, ast.AnnAssign) and isinstance(st.target, ast.Name) and st.target.id in flags and st.value is not None:
+            env[st.target.id] = _ev(st.value, env)
+        elif isinstance(st, ast.If) and any(isinstance(x, ast.Name) and x.id in flags and isinstance(x.ctx, ast.Store) for x in ast.walk(st)):
+            _run(st.body if _ev(st.test, env) else st.orelse, env, flags)
+        # every other statement neither defines nor redefines a flag
+
+
+def rule_rollover(repo: Repo, rep: Report) -> None:
+    """window_with_time: at each timer tick the oldest window closes iff next_span <= next_shift and a new one opens iff
+    next_shift <= next_span -- in particular BOTH in the same action when the two coincide (tumbling windows: an
+    element arriving at the boundary always finds an open window)."""
+    from ..rules import locals_by_init
+    rel = f"{O}_windowwithtime.py"
+    root = repo.fn(rel, "window_with_time_.subscribe")
+    fac = repo.fn(rel, "window_with_time_")
+    ct = root.child("create_timer")
+    rep.require(ct is not None, "window_with_time: create_timer")
+    act = ct.child("action")
+    rep.require(act is not None, "window_with_time: timer action")
+    span_p, shift_p = fac.params[1], fac.params[2]
+    cell = lambda p: locals_by_init(root, lambda v: isinstance(v, ast.List) and len(v.elts) == 1 and u(v.elts[0]) == p)
+    spans, shifts = cell(span_p), cell(shift_p)
+    rep.require(len(spans) == 1 and len(shifts) == 1, "window_with_time: next-span / next-shift cells")
+    span, shift = spans[0], shifts[0]
+    # roles of the two flags from what the action does under them
+    close = open_ = None
+    for s in sites(act):
+        n = s.node
+        if isinstance(n, ast.Call) and isinstance(n.func, ast.Attribute) and n.func.attr in ("pop", "popleft"):
+            for e, p in s.ctx.guards:
+                if p and isinstance(e, ast.Name) and act.owner(e.id) is ct:
+                    close = e.id
+        if isinstance(n, ast.Call) and call_name(n) == "add_ref":
+            for e, p in s.ctx.guards:
+                if p and isinstance(e, ast.Name) and act.owner(e.id) is ct:
+                    open_ = e.id
+    rep.require(close and open_, "window_with_time: close / open decisions of the timer action")
+    body = [st for st in ct.node.body if not isinstance(st, (ast.FunctionDef, ast.AsyncFunctionDef))]
+    for a, b, label in ((0, 1, "next_span < next_shift"), (1, 1, "next_span == next_shift"), (1, 0, "next_span > next_shift")):
+        env = {span: a, shift: b}
+        try:
+            _run(body, env, {close, open_})
+            got = (env.get(close), env.get(open_))
+        except _Unsupported as ex:
+            raise AnalysisError(f"window_with_time: cannot evaluate `{ex}` in create_timer") from None
+        want = (a <= b, b <= a)
+        rep.ob("T1-rollover", ct, f"{label}: close oldest = {want[0]}, open new = {want[1]}", got == want,
+               f"window_with_time: when {label} the timer action decides (close, open) = {got} instead of {want}: at a boundary "
+               f"where a window closes and the next opens, the two no longer happen in one step -- an element arriving "
+               f"in between is in too few windows (in none, for tumbling windows)")
+    # the decisions are taken before the timer is armed and used by its action unchanged
+    rep.ob("T1-rollover", act, "the action opens before it closes, then re-arms", [x for x in ("open", "close", "rearm") if x] == _order(act, open_, close), 
+           "the timer action does not open the new window before closing the oldest and re-arming")
+
+
+def _order(act, open_, close):
+    out = []
+    for s in sites(act):
+        n = s.node
+        if isinstance(n, ast.Call) and call_name(n) == "add_ref" and "open" not in out:
+            out.append("open")
+        if isinstance(n, ast.Call) and isinstance(n.func, ast.Attribute) and n.func.attr in ("pop", "popleft") and "close" not in out:
+            out.append("close")
+        if isinstance(n, ast.Call) and isinstance(n.func, ast.Name) and n.func.id == "create_timer" and "rearm" not in out:
+            out.append("rearm")
+    return out
+
+
